@@ -271,8 +271,10 @@ func (ex *Exec) load(st *State, p Val) Val {
 	}
 	if cv, ok := st.cells[p.Arr+"@"+p.T]; ok {
 		cv.Typ = el
-		cv.Origin = p.Arr
-		cv.OriginRef = p.T
+		if cv.Origin == "" {
+			cv.Origin = p.Arr
+			cv.OriginRef = p.T
+		}
 		return cv
 	}
 	t := st.read(p.Arr, so, p.T)
@@ -722,15 +724,21 @@ func (ex *Exec) block(st *State, fr *Frame, b *ssa.BasicBlock, pred *ssa.BasicBl
 			}
 		}
 		st.note(fmt.Sprintf("enter loop %d", ord))
+		if fr.loopEntry == nil {
+			fr.loopEntry = map[int]map[string]string{}
+			fr.loopEntryCnt = map[int]map[string]string{}
+		}
+		fr.loopEntry[ord] = st.snapshot()
+		cc := map[string]string{}
+		for k2, v2 := range st.cnt {
+			cc[k2] = v2
+		}
+		fr.loopEntryCnt[ord] = cc
 		for _, c := range invs {
 			g := ex.evalClause(st, fr, c, nil)
 			ex.oblige(st, "invariant-entry", fmt.Sprintf("%s/loop%d.%s.entry", fr.key, ord, c.name()), c.Labels, g, c, ex.posOfBlock(b))
 		}
 		fr.cut[b] = true
-		if fr.loopEntry == nil {
-			fr.loopEntry = map[int]map[string]string{}
-		}
-		fr.loopEntry[ord] = st.snapshot()
 		fr.heldAtLoop = st.heldKeys()
 		// havoc
 		for _, ph := range phis {
@@ -1144,13 +1152,25 @@ func (ex *Exec) expandCounters(st *State, ms *modSet) []string {
 	for _, c := range ms.counters() {
 		if strings.HasSuffix(c, "*") {
 			pre := strings.TrimSuffix(c, "*")
+			match := func(k string) bool {
+				if !strings.HasPrefix(k, pre) {
+					return false
+				}
+				if pre == "fnfield:" && len(ms.fnTypes) > 0 {
+					// only function-valued fields of a type that is actually called here
+					if ft := ex.fieldTypeOfArr(strings.TrimPrefix(k, "fnfield:")); ft != nil {
+						return ms.fnTypes[types.TypeString(types.Unalias(ft), nil)]
+					}
+				}
+				return true
+			}
 			for k := range ex.cntInit {
-				if strings.HasPrefix(k, pre) {
+				if match(k) {
 					add(k)
 				}
 			}
 			for k := range st.cnt {
-				if strings.HasPrefix(k, pre) {
+				if match(k) {
 					add(k)
 				}
 			}
@@ -1221,4 +1241,22 @@ func (ex *Exec) ctxAware(st *State, fr *Frame, instr ssa.Instruction, what strin
 		goal = "true"
 	}
 	ex.oblige(st, "ctxaware", fmt.Sprintf("%s#ctxaware@%s#%d", fr.key, what, ex.ordinalOf(fr, instr, what)), sp.CtxAware.Labels, goal, sp.CtxAware, ex.posOf(instr))
+}
+
+// fieldTypeOfArr: static type of the struct field behind a heap array name "H.<type key>.<path>".
+func (ex *Exec) fieldTypeOfArr(arr string) types.Type {
+	if !strings.HasPrefix(arr, "H.") {
+		return nil
+	}
+	rest := strings.TrimPrefix(arr, "H.")
+	for i := len(rest) - 1; i > 0; i-- {
+		if rest[i] == '.' {
+			if t := ex.namedType(rest[:i]); t != nil {
+				if ft := ex.fieldTypeAt(rest[:i], rest[i+1:]); ft != nil {
+					return ft
+				}
+			}
+		}
+	}
+	return nil
 }
